@@ -42,14 +42,27 @@ def gen_case(rng):
     pf = []
     for c in gcols:
         r = rng.random()
-        if r < 0.3:
+        if r < 0.25:
             pf.append(f'{q}.{c} = {rng.randint(0, 2)}')
-        elif r < 0.45:
+        elif r < 0.4:
             pf.append(f'{q}.{c} in ({rng.randint(0, 1)}, {rng.randint(1, 2)})')
         elif r < 0.5:
             pf.append(f'{q}.{c} >= {rng.randint(0, 2)}')
+        elif r < 0.7:
+            # several conjuncts on the same partition column: the WHERE becomes a deep tree of ANDs
+            pf.append(f'{q}.{c} >= 0')
+            pf.append(f'{q}.{c} <= {rng.randint(1, 2)}')
+            if rng.random() < 0.5:
+                pf.append(f'{q}.{c} in (0, 1, 2)')
     conds = ([tcond] if tcond else []) + pf
     rng.shuffle(conds)
+    if tcond and len(conds) >= 3 and rng.random() < 0.3:
+        # the time condition first / inside a parenthesised group
+        conds.remove(tcond)
+        if rng.random() < 0.5:
+            conds = [tcond] + conds
+        else:
+            conds = [conds[0], '(' + ' and '.join([tcond] + conds[1:]) + ')']
     tab = 'int1.t1' + (f' as {al}' if al else '')
     model_left = rng.random() < 0.25
     frm = f'proj.tp as m join {tab}' if model_left else f'{tab} join proj.tp as m'
